@@ -1016,20 +1016,60 @@ Definition inter_agrees (ts : list token) (n : nat) (acts : list iact) (obs : li
   end.
 
 (** The property on the observation alone, without the reader model: what each
-    reader delivers is the token stream of the document (minus declarations) —
-    a prefix of it as long as it has not ended, all of it when io.EOF comes,
-    and io.EOF from then on; every decoder view denotes the document's tree. *)
-Fixpoint calls_ok (expect : list token) (cs : list ocall) : bool :=
-  match cs with
-  | [] => true
-  | CTok (Some t) :: r =>
-      match expect with
-      | e :: expect' => token_eqb t e && calls_ok expect' r
-      | [] => false
+    reader delivers is the token stream of the document — a prefix of it as
+    long as it has not ended, all of it when io.EOF comes, and io.EOF from then
+    on; every decoder view denotes the document's tree.
+
+    "The token stream of the document" is taken modulo what is not part of the
+    element tree: namespace declaration attributes, and where the boundaries
+    between adjacent pieces of character data fall (text, CDATA section,
+    entity: encoding/xml delivers them as separate tokens, a raw value is free
+    to keep them apart or to join them).  [norm_stream] is the normal form:
+    declarations dropped, every maximal run of character data one token, empty
+    runs none — the stream counterpart of [norm] on trees. *)
+Fixpoint norm_stream (l : list token) : list token :=
+  match l with
+  | [] => []
+  | TText s :: r =>
+      match norm_stream r with
+      | TText s' :: r' => TText (s ++ s')%string :: r'
+      | r' => if str_empty s then r' else TText s :: r'
       end
-  | CTok None :: _ => false
-  | CEof :: r => match expect with [] => forallb (ocall_eqb CEof) r | _ => false end
-  | CPanic :: _ => false
+  | TStart n a :: r => TStart n (strip_decls a) :: norm_stream r
+  | x :: r => x :: norm_stream r
+  end.
+
+(** [a] is a beginning of [b], both in normal form: token by token, except that
+    the last token of [a], when it is character data, may be a beginning of the
+    corresponding run of [b] (the reader has not delivered the rest yet). *)
+Fixpoint tprefix (a b : list token) : bool :=
+  match a with
+  | [] => true
+  | x :: a' =>
+      match b with
+      | [] => false
+      | y :: b' =>
+          match x, y, a' with
+          | TText s, TText s', [] => String.prefix s s'
+          | _, _, _ => token_eqb x y && tprefix a' b'
+          end
+      end
+  end.
+
+(** The tokens a reader delivered before its first call that is not a (non-nil) token. *)
+Fixpoint split_calls (cs : list ocall) : list token * list ocall :=
+  match cs with
+  | CTok (Some t) :: r => let '(l, rest) := split_calls r in (t :: l, rest)
+  | _ => ([], cs)
+  end.
+
+Definition calls_ok (expect : list token) (cs : list ocall) : bool :=
+  let '(toks, rest) := split_calls cs in
+  match rest with
+  | [] => tprefix (norm_stream toks) (norm_stream expect)
+  | CEof :: r =>
+      list_eqb token_eqb (norm_stream toks) (norm_stream expect) && forallb (ocall_eqb CEof) r
+  | _ => false                        (* a nil token, a panic *)
   end.
 
 Definition calls_of_reader (i : nat) (acts : list iact) (obs : list iobs) : list ocall :=
@@ -1037,7 +1077,7 @@ Definition calls_of_reader (i : nat) (acts : list iact) (obs : list iobs) : list
 
 Definition inter_spec_ok (ts : list token) (n : nat) (acts : list iact) (obs : list iobs) : bool :=
   same_shape acts obs
-  && forallb (fun i => calls_ok (strip_stream ts) (calls_of_reader i acts obs)) (seq 0 n)
+  && forallb (fun i => calls_ok ts (calls_of_reader i acts obs)) (seq 0 n)
   && forallb (fun d => match d with Ok l => same_stream (somes l) ts | _ => false end) (decs_of obs).
 
 (** ** Documents captured one after the other into ONE variable, with a copy of
